@@ -336,9 +336,9 @@ func precompileInputs(thorough bool) (generic, modexp [][]byte) {
 	generic, out = out, nil
 	// modexp: (baseLen, expLen, modLen) lattice x tails
 	lens := []*big.Int{big.NewInt(0), big.NewInt(1), big.NewInt(32), big.NewInt(33), big.NewInt(64), big.NewInt(65), big.NewInt(1024), big.NewInt(1025),
-		pow2(16), pow2(20), pow2(32), dec(pow2(64)), pow2(64), new(big.Int).Add(pow2(64), big.NewInt(1)), pow2(255), dec(pow2(256))}
+		pow2(16), pow2(20), pow2(26), pow2(32), pow2(62), dec(pow2(64)), pow2(64), new(big.Int).Add(pow2(64), big.NewInt(1)), pow2(255), dec(pow2(256))}
 	if !thorough {
-		lens = []*big.Int{big.NewInt(0), big.NewInt(1), big.NewInt(33), big.NewInt(1025), pow2(20), dec(pow2(64)), new(big.Int).Add(pow2(64), big.NewInt(1)), dec(pow2(256))}
+		lens = []*big.Int{big.NewInt(0), big.NewInt(1), big.NewInt(33), big.NewInt(1025), pow2(20), pow2(26), pow2(62), dec(pow2(64)), new(big.Int).Add(pow2(64), big.NewInt(1)), dec(pow2(256))}
 	}
 	tails := [][]byte{nil, bytes.Repeat([]byte{0xff}, 32), bytes.Repeat([]byte{0xff}, 200), append(make([]byte, 99), 0x03)}
 	for _, b := range lens {
